@@ -239,7 +239,9 @@ class State:
             ts = self.types(c[1])
             return ts is not None and not (ts & c[2])
         if k == "cmp":
-            return self.holds(("cmp", NEG_CMP[c[1]], c[2], c[3]))
+            return self.holds(("cmp", NEG_CMP[c[1]], c[2], c[3])) or self.holds(("notcmp", c[1], c[2], c[3]))
+        if k == "notcmp":
+            return self.holds(("cmp", c[1], c[2], c[3]))
         if k in ("in", "notin"):
             if self.holds(("notin" if k == "in" else "in", c[1], c[2])):
                 return True
@@ -2223,9 +2225,29 @@ class Walker:
             for kk, vv in items:
                 if kk == ("unpack",) and is_lit(vv, "dict") and not any(k2 == ("unpack",) for k2, _v2 in vv[2]):
                     flat_items.extend(vv[2])
+                    continue
+                ks = None
+                if kk == ("unpack",):
+                    # **d with a dict whose key set was established (keys(d) == {...}): its entries
+                    vt = s.types(vv)
+                    if vt is not None and vt <= {"dict"}:
+                        for f in s.closure():
+                            if f[0] == "keys" and f[1] == vv and all(isinstance(k0, str) for k0 in f[2]):
+                                ks = f[2]
+                if ks is not None:
+                    flat_items.extend((C(k0), Sub(vv, C(k0))) for k0 in sorted(ks))
                 else:
                     flat_items.append((kk, vv))
-            items = tuple(flat_items)
+            # a later entry under the same constant key replaces the earlier one (keeping its position)
+            dedup, pos = [], {}
+            for kk, vv in flat_items:
+                if is_const(kk) and kk in pos and not any(k2 == ("unpack",) for k2, _v in flat_items):
+                    dedup[pos[kk]] = (kk, vv)
+                else:
+                    if is_const(kk):
+                        pos[kk] = len(dedup)
+                    dedup.append((kk, vv))
+            items = tuple(dedup)
             t = ("lit", "dict", items, self.site(e)[:3])
             s = s.copy()
             for kk, vv in items:
